@@ -355,6 +355,12 @@ def eval_real(prog, leaves, form="operator"):
     if k == "bin":
         a, b = eval_real(prog[2], leaves), eval_real(prog[3], leaves)
         _ref, opf, uf, ipf = BINARY[prog[1]]
+        if form == "method" and prog[1] == "dot" and isinstance(a, unyt_array):
+            return a.dot(b)  # unyt_array.dot is separate code from np.dot's handler
+        if form == "helper" and prog[1] == "dot":
+            from unyt.array import udot
+
+            return udot(a, b)
         if form == "operator" and opf is not None:
             return opf(a, b)
         bshape = np.broadcast(np.asarray(a), np.asarray(b)).shape if prog[1] not in ("dot", "matmul") else None
@@ -489,6 +495,8 @@ def part(ctx, shard):
         progs = PROGS[len(units)]
         for prog in progs:
             forms = ("operator", "ufunc") if shape == "scalar" else ("operator", "ufunc", "inplace", "out")
+            if prog[0] == "bin" and prog[1] == "dot":
+                forms = forms + ("method", "helper")
             check_program(ctx, prog, leaves, forms)
     ctx.sample({"leaf_units": list(shard[0][0]), "shape": shard[0][1], "programs": len(PROGS[len(shard[0][0])])})
 
@@ -562,6 +570,37 @@ def part_offset(ctx, shard):
                                 ctx.violation(base + "|mode=wrong-value", case, np.asarray(want).tolist(), {"value": np.asarray(res.d).tolist(), "units": str(res.units), "abs_si": np.asarray(got).tolist()})
 
 
+TRIG_UNITS = ["rad", "degree", "arcmin", "lat", "lon"]
+
+
+def part_trig_offset(ctx, shard):
+    """sin/cos/tan of an angle reading are those of the absolute angle, whatever scale it is written on
+    (lat and lon have a zero point); a refusal is acceptable, a different number is not."""
+    world.reset_world()
+    for n in shard:
+        for shape in ("scalar", "array"):
+            v = OFFSET_VALS[n]
+            a = unyt_quantity(v[0], n) if shape == "scalar" else unyt_array(np.array(v), n)
+            A = abs_si(a)
+            for fname in ("sin", "cos", "tan"):
+                fn = getattr(np, fname)
+                for form, f in (("ufunc", lambda x: fn(x)), ("out", lambda x: fn(x, out=np.empty(np.shape(x)))), ("via-rad", lambda x: fn(x.to("rad")))):
+                    ctx.count("evaluations")
+                    ctx.count("transitions")
+                    r = run_real(lambda: f(a))
+                    case = {"part": "trig", "op": fname, "form": form, "unit": n, "shape": shape}
+                    ctx.outcome(("trig", fname, form, n, r[0]))
+                    if r[0] != "ok":
+                        ctx.count("refused")
+                        continue
+                    ctx.decided(("trig", fname, form, n, shape))
+                    want = fn(A)
+                    got = np.asarray(r[1], dtype=float)
+                    tol = 64 * EPS * (1.0 + np.abs(A)) * (1.0 + (want**2 if fname == "tan" else 0.0)) + 64 * EPS * np.abs(want)
+                    if got.shape != np.shape(want) or np.any(np.abs(got - want) > tol):
+                        ctx.violation(f"C04|trig|op={fname}|form={form}|unit={n}|mode=wrong-value", case, np.asarray(want).tolist(), got.tolist())
+
+
 PROGS = {}
 
 
@@ -592,6 +631,7 @@ def run(ctx):
         shards.append(cases[i : i + 12])
     harness.pmap(ctx, part, shards)
     harness.pmap(ctx, part_offset, [[(g, n)] for g in OFFSET_GROUPS for n in g])
+    harness.pmap(ctx, part_trig_offset, [[n] for n in TRIG_UNITS])
     return {
         "coverage": {
             "rule": "all expression programs of depth <= 2 over the operation alphabet x every assignment of leaf units "
@@ -612,6 +652,9 @@ def run(ctx):
 def replay(case):
     ctx = harness.Ctx(PROPERTY, "quick", 0)
     world.reset_world()
+    if case.get("part") == "trig":
+        part_trig_offset(ctx, [case["unit"]])
+        return list(ctx.violations.items())
     if case.get("part") == "offset":
         grp = [g for g in OFFSET_GROUPS if case["left"] in g][0]
         part_offset(ctx, [(grp, case["left"])])
